@@ -127,6 +127,9 @@ func implRender(cs Case) ImplResult {
 	if cs.Op == "doc" {
 		// safety oracles only make sense for parser-produced trees (API-built trees can hold anything)
 		res.Checks = safetyChecks(c, out)
+		if !c.Unsafe && ok {
+			res.Checks = append(res.Checks, ModelCheck{Line: "render inv " + o + " " + e + " " + toks, Property: "C03"})
+		}
 	}
 	for k := range kinds {
 		res.Stats = append(res.Stats, "kind:"+k)
